@@ -22,6 +22,7 @@ Next ==
     \/ BPrepSkip \/ BPrepRefuse(Env) \/ BPrepTimeout(Env)
     \/ \E d \in Durations : BPrepRun(Env, d) \/ BPrepRetry(Env, d)
     \/ \E i \in 1..MaxBatch, to \in BOOLEAN : BAnswer(Env, i, to) \/ BWorkerDone(Env, i, to)
+    \/ \E i \in 1..MaxBatch : BWorkerLost(Env, i)
     \/ BSpawn \/ BCallReturn(Env) \/ BCallRaise
 
 Spec == BInit /\ [][Next]_<<mvars, bvars>>
